@@ -1524,6 +1524,12 @@ impl TreeNodeRewriter for Simplifier<'_> {
                     // or all thens are literal bools and a small number of them are true
                     || (when_then_expr.iter().all(|(_, then)| is_bool_lit(then))
                         && when_then_expr.iter().filter(|(_, then)| is_true(then)).count() < 3))
+                // AND/OR evaluate both operands for the rows of a batch: only rewrite when
+                // nothing that CASE would have skipped (later WHENs, the THENs, the ELSE)
+                // can raise an error
+                && when_then_expr.iter().skip(1).all(|(when, _)| cannot_fail(when))
+                && when_then_expr.iter().all(|(_, then)| cannot_fail(then))
+                && else_expr.as_deref().is_none_or(cannot_fail)
                 && info.is_boolean_type(&when_then_expr[0].1)? =>
             {
                 // String disjunction of all the when predicates encountered so far. Not nullable.
@@ -2088,6 +2094,40 @@ impl TreeNodeRewriter for Simplifier<'_> {
             // no additional rewrites possible
             expr => Transformed::no(expr),
         })
+    }
+}
+
+/// Conservative: true for expressions built only from columns, literals, comparisons,
+/// boolean connectives and null tests, whose evaluation cannot raise a runtime error.
+fn cannot_fail(expr: &Expr) -> bool {
+    match expr {
+        Expr::Column(_) | Expr::Literal(_, _) => true,
+        Expr::Not(e)
+        | Expr::IsNull(e)
+        | Expr::IsNotNull(e)
+        | Expr::IsTrue(e)
+        | Expr::IsFalse(e)
+        | Expr::IsUnknown(e)
+        | Expr::IsNotTrue(e)
+        | Expr::IsNotFalse(e)
+        | Expr::IsNotUnknown(e) => cannot_fail(e),
+        Expr::BinaryExpr(BinaryExpr { left, op, right }) => {
+            (op.supports_propagation() || matches!(op, Operator::And | Operator::Or))
+                && !matches!(
+                    op,
+                    Operator::RegexMatch
+                        | Operator::RegexIMatch
+                        | Operator::RegexNotMatch
+                        | Operator::RegexNotIMatch
+                )
+                && cannot_fail(left)
+                && cannot_fail(right)
+        }
+        Expr::Between(b) => {
+            cannot_fail(&b.expr) && cannot_fail(&b.low) && cannot_fail(&b.high)
+        }
+        Expr::InList(l) => cannot_fail(&l.expr) && l.list.iter().all(cannot_fail),
+        _ => false,
     }
 }
 
